@@ -776,6 +776,11 @@ class Node:
         if new_parent is self or new_parent.is_descendant_of(self):
             raise ValueError(f"Cannot move {self} to its own branch")
 
+        if new_parent is not self._parent:
+            for n in new_parent.children:
+                if n._data_id == self._data_id:
+                    raise UniqueConstraintError("Node.data already exists in parent")
+
         if before is False:
             before = None  # append (note that `False` is also an `int`)
         elif before is True:
